@@ -155,12 +155,12 @@ impl InitHeader {
 
         let (payload_len_bytes, data) = data.split_at(2);
 
-        let payload_len = u16::from_be_bytes(payload_len_bytes.try_into().unwrap()).into();
-        let data = if payload_len > Self::MAX_PAYLOAD_SIZE {
-            data
-        } else {
-            &data[..payload_len]
-        };
+        let payload_len: usize = u16::from_be_bytes(payload_len_bytes.try_into().unwrap()).into();
+        // The packet must contain the part of the payload it has to carry, and never carries
+        // more than what an initialization packet can hold even if more bytes were handed in.
+        let data = data
+            .get(..payload_len.min(Self::MAX_PAYLOAD_SIZE))
+            .ok_or(())?;
         Ok((
             Self {
                 channel,
@@ -311,6 +311,8 @@ enum ExtensionError {
     OutOfSequence,
     /// Packet is not of the same channel ID as the current message
     WrongChannel,
+    /// Packet is shorter than the part of the payload it has to carry
+    TooShort,
 }
 
 /// Error occuring when trying to create a new message to send to a client
@@ -423,16 +425,16 @@ impl Message {
         }
 
         if header.seq == self.sequence {
-            self.sequence += 1;
             let remaining_bytes = self.payload_len - self.payload.len();
             const MAX_CONT_PACKET_LEN: usize = MAX_PACKET_SIZE - ContHeader::HEADER_SIZE;
-            if remaining_bytes <= MAX_CONT_PACKET_LEN {
-                self.payload.extend_from_slice(&data[..remaining_bytes]);
-                Ok(true)
-            } else {
-                self.payload.extend_from_slice(data);
-                Ok(false)
-            }
+            // A packet which does not carry the bytes it must carry is ignored, one which
+            // carries more than a packet can hold only contributes what a packet can hold.
+            let data = data
+                .get(..remaining_bytes.min(MAX_CONT_PACKET_LEN))
+                .ok_or(ExtensionError::TooShort)?;
+            self.sequence += 1;
+            self.payload.extend_from_slice(data);
+            Ok(remaining_bytes <= MAX_CONT_PACKET_LEN)
         } else {
             Err(ExtensionError::OutOfSequence)
         }
